@@ -6,7 +6,7 @@ import numpy as np
 from scipy.optimize import linprog, minimize
 
 from rv import atoms as AT
-from rv.common import user_array
+from rv.common import user_array, digest as _digest
 
 
 def _vec(rng, n, dens=0.7, scale=2.0):
@@ -365,6 +365,13 @@ def _hook(variant, point, B=None):
 
 
 def build(spec, variant=None):
+    try:
+        return _build(spec, variant)
+    finally:
+        AT.ARR[0] = None
+
+
+def _build(spec, variant=None):
     import rsome as rso
     from rsome import ro, dro
     variant = variant or {}
@@ -374,10 +381,15 @@ def build(spec, variant=None):
     B.model = m
     B.arrays = []
 
+    B.digests = []
+
     def arr(a):
         a = user_array(a, variant.get('arr'))
         B.arrays.append(a)
+        B.digests.append(_digest(a))
         return a
+
+    AT.ARR[0] = arr
 
     xs = [m.dvar(b['n'], b['vtype']) for b in spec['blocks']]
     B.xs = xs
